@@ -129,6 +129,18 @@ CHECKS = {
         "Skeleton of 11 classes with generated method annotations; typing.List, tuple element types and abs() are not asserted.",
         "DESIGN.md section 4, C08",
     ),
+    "C09": (
+        "Hypothesis generation of callback placements (class/method/both/function processor/parameterized property, with optional "
+        "call-site rewrites) x queries with uniquely marked call sites at depth 0-3; oracle = known-by-construction set of "
+        "(callback, site) pairs, order, metadata position on the source chain and expected rewritten lambda (ast.dump equality)",
+        "Every call site carries a unique marker; the generator knows which callbacks must fire for which site. After every stage: "
+        "the callback log must contain every expected (callback, site) pair and nothing else, class-level before method-level; the "
+        "MetaData each callback attached must sit on the args[0] chain between the new operator node and the parent's node and not "
+        "inside the lambda; the emitted lambda must equal the written one with all rewrites applied and [param] subscripts removed; "
+        "parameterized callbacks must receive the literal tuple by value.",
+        "Duplicate firings are allowed (labelled). Methods take one required marker argument so default handling (C07) does not interfere.",
+        "DESIGN.md section 4, C09",
+    ),
 }
 
 NOT_YET = "check not built yet in this round (work in progress; see DESIGN.md section 4 for the planned generator/oracle)"
